@@ -516,6 +516,10 @@ impl Ctrl {
         std::mem::take(&mut self.lock().trace)
     }
 
+    pub fn actor_is_co(&self, i: usize) -> bool {
+        self.lock().actors[i].is_co
+    }
+
     pub fn actor_state(&self, i: usize) -> (ASt, Option<CoSt>) {
         let g = self.lock();
         (g.actors[i].st.clone(), g.co.get(&g.actors[i].vid).copied())
@@ -545,7 +549,8 @@ impl may::verif::Controller for Ctrl {
         } else if cat == "blk" {
             cat = g.owner.get(&(obj | 1)).copied().unwrap_or(cat);
         }
-        if !g.cats.iter().any(|c| *c == cat) {
+        // an entry of `cats` is a category or one full site name
+        if !g.cats.iter().any(|c| *c == cat || *c == site) {
             return;
         }
         let Some(me) = self.resolve(&g, site, a) else { return };
